@@ -290,11 +290,33 @@ def sentHeader (a : Bytes) : Option Bytes :=
   else if a.dropWhile (· != 59) = [59] then some (a.takeWhile (· != 59) ++ [58])
   else none
 
+/-- httpie's reading of one request item, from its documented grammar (NOT tied: httpie is not installed): the item is cut
+    at the first of `: = @ ;`; `Name:value` is a header (value without leading blanks), `Name:` alone UNSETS the header,
+    `Name;` is a header with an empty value; `:=`, `=`, `==`, `@` items are data / query / file fields; `\` escapes are not
+    modelled (`other`) -/
+inductive HItem
+  | header (n v : Bytes) | emptyHeader (n : Bytes) | unsetHeader (n : Bytes) | other
+deriving DecidableEq, Repr
+
+def isItemSep (c : UInt8) : Bool := c = 58 || c = 61 || c = 64 || c = 59
+
+def httpieItem (a : Bytes) : HItem :=
+  if a.contains 92 then .other
+  else
+    match a.dropWhile (fun c => !isItemSep c) with
+    | 58 :: 61 :: _ => .other
+    | 58 :: v => if v.dropWhile isPyWs = [] then .unsetHeader (a.takeWhile (fun c => !isItemSep c))
+                 else .header (a.takeWhile (fun c => !isItemSep c)) (v.dropWhile isPyWs)
+    | [59] => .emptyHeader (a.takeWhile (fun c => !isItemSep c))
+    | _ => .other
+
 def sH : Bytes := [45, 72]
 def sX : Bytes := [45, 88]
 def sD : Bytes := [45, 100]
 def sResolve : Bytes := [45, 45, 114, 101, 115, 111, 108, 118, 101]
 def sCompressed : Bytes := [45, 45, 99, 111, 109, 112, 114, 101, 115, 115, 101, 100]
+def sGloboff : Bytes := [45, 45, 103, 108, 111, 98, 111, 102, 102]
+def sPathAsIs : Bytes := [45, 45, 112, 97, 116, 104, 45, 97, 115, 45, 105, 115]
 def sAE : Bytes := [97, 99, 99, 101, 112, 116, 45, 101, 110, 99, 111, 100, 105, 110, 103]
 def sCL0 : Bytes := [99, 111, 110, 116, 101, 110, 116, 45, 108, 101, 110, 103, 116, 104, 58, 32, 48]
 
@@ -304,6 +326,15 @@ def curlHeaderArgs : List (Bytes × Bytes) → List Bytes
     (if lname h.1 = sAE then [sCompressed] else [sH, headerArg h]) ++ curlHeaderArgs r
 
 def sGET : Bytes := [71, 69, 84]
+
+/-- `any(c in url for c in "[]{}")`: curl would read these as URL globbing patterns -/
+def hasGlob (u : Bytes) : Bool := u.any (fun c => c = 91 || c = 93 || c = 123 || c = 125)
+
+/-- `"/." in url`: the path may hold dot segments, which curl would remove (`/a/../b` → `/b`) -/
+def hasSlashDot : Bytes → Bool
+  | [] => false
+  | [_] => false
+  | a :: b :: r => (a = 47 && b = 46) || hasSlashDot (b :: r)
 
 /-- the `args` list of `curl_command`; `addr`: `f.server_conn.peername[0]` -/
 def curlArgs (preserve : Bool) (addr : Option Bytes) (r : Req) : List Bytes :=
@@ -319,7 +350,8 @@ def curlArgs (preserve : Bool) (addr : Option Bytes) (r : Req) : List Bytes :=
       (if r.body = .none then [sH, sCL0] else []) ++ [sX, r.method]
     else if r.body ≠ .none then [sX, sGET]
     else []
-  [[99, 117, 114, 108]] ++ resolve ++ curlHeaderArgs (popHeaders r.host r.headers) ++ meth ++ [r.url]
+  [[99, 117, 114, 108]] ++ (if hasGlob r.url then [sGloboff] else []) ++ (if hasSlashDot r.url then [sPathAsIs] else []) ++ resolve ++
+    curlHeaderArgs (popHeaders r.host r.headers) ++ meth ++ [r.url]
 
 /-- `curl_command`; `none` = CommandError("Request content must be valid unicode") -/
 def curlCommand (preserve : Bool) (addr : Option Bytes) (r : Req) : Option Bytes :=
@@ -345,6 +377,8 @@ structure Curl where
   method : Option Bytes := none
   headers : List Bytes := []           -- `-H` values in order
   compressed : Bool := false
+  globoff : Bool := false               -- `--globoff`: the URL is taken literally
+  pathAsIs : Bool := false              -- `--path-as-is`: dot segments are kept
   resolve : List Bytes := []
   data : Option Bytes := none
   urls : List Bytes := []
@@ -367,6 +401,8 @@ def decStep (st : Pend) (c : Curl) (a : Bytes) : Option (Pend × Curl) :=
     else if a = sD then some (.D, c)
     else if a = sResolve then some (.R, c)
     else if a = sCompressed then some (.none, { c with compressed := true })
+    else if a = sGloboff then some (.none, { c with globoff := true })
+    else if a = sPathAsIs then some (.none, { c with pathAsIs := true })
     else if a.head? = some 45 then none                 -- an option the exporter never emits
     else some (.none, { c with urls := c.urls ++ [a] })
 
